@@ -9,6 +9,9 @@ Line-protocol driver for the C06 model (fan-out queue with consumer groups).
       appendwake = Put, whose broadcast wakes the parked call, and the call returns; pausewake = Pause
       (signals) and the call returns). They answer `parked | …`, `<result> | …`, `blocked | …` or
       `not-parked | …`.
+  createsync <g> | ackconsume <g> <n>      (lock-granularity races, Model/FanOutConc.lean: a create whose
+      meta write is delayed while Sync+GC are called = create; sync; gc — an Ack whose meta write is
+      delayed while Consume is called = ack; consume)
 
 State operations answer `<result> | q=<appended>/<ack> | <g>=<consumed>/<ack> ...` (live groups,
 ascending by name); `get` answers `ok <len>` / `out-of-range` / `not-found`; `pages` answers
@@ -135,6 +138,22 @@ def pstepLine (v : Variant) (ps : PState) (ws : List String) : PState × String 
     match g.toNat? with
     | some g => preply (pstep v (pstep v ps (.op (.pause g))).1 (.cend g))
     | none => (ps, "bad-op")
+  | ["createsync", g] =>
+    -- GetOrCreateConsumerGroup ‖ Sync; GC in the pinned (locked) shape: create, then sync, then gc
+    match g.toNat? with
+    | some g =>
+      let s1 := (step v ps.s (.create g)).1
+      let s2 := (step v s1 .sync).1
+      ({ ps with s := (step v s2 .gc).1 }, "ok | " ++ showState (step v s2 .gc).1)
+    | none => (ps, "bad-op")
+  | ["ackconsume", g, n] =>
+    -- Ack ‖ Consume on one group in the pinned shape (Ack holds the read lock first): ack, then consume
+    match g.toNat?, n.toInt? with
+    | some g, some n =>
+      let s1 := (step v ps.s (.ack g n)).1
+      let r := step v s1 (.consume g)
+      ({ ps with s := r.1 }, showRes r.2 ++ " | " ++ showState r.1)
+    | _, _ => (ps, "bad-op")
   | ["reset"] => (PState.init, "ok")
   | _ =>
     let r := stepLine v ps.s ws
